@@ -232,6 +232,9 @@ def run(mod, tier, seed, replay=None):
             path = write_replay(prop, case, v, (r or {}).get("hashseed"), case.get("lane", "plain"))
             print("VIOLATION property=%s replay=%s" % (prop, path))
             print("  key=%s count=%d monitor=%s what=%s" % (k, len(lst), v.get("monitor"), str(v.get("what"))[:600]))
+        rest = list(seen_keys.items())[12:]
+        if rest:
+            print("  ... %d further violation keys (no replay written): %s" % (len(rest), ", ".join("%s(x%d)" % (k, len(l)) for k, l in rest[:150])))
         return 1
     if reasons:
         print("INCONCLUSIVE property=%s reason=%s" % (prop, "; ".join(reasons)))
